@@ -30,6 +30,14 @@ pub fn run(ctx: &Ctx) -> i32 {
     total.merge(o);
     total.merge(run_generated(ctx, &engine, "random-grid-n<=6", || random_strategy(6, false), ctx.cases(300_000, 6_000_000), 1000));
     total.merge(run_generated(ctx, &engine, "random-offgrid-n<=8", || random_strategy(8, true), ctx.cases(300_000, 6_000_000), 1000));
+    // a set that already finished once (empty) and is filled afterwards behaves like a fresh one
+    total.merge(run_generated(ctx, &engine, "reused-set", || {
+        use proptest::prelude::*;
+        (random_strategy(6, false), prop_oneof![Just(0u16), Just(7u16), 1u16..200]).prop_map(|(mut c, pause)| {
+            c.reuse = Some(pause);
+            c
+        })
+    }, ctx.cases(60_000, 1_500_000), 1000));
     // the real TcpTransport over loopback sockets (live / refused / hanging candidates), real clock
     let tctx = Ctx { threads: 16, ..ctx.clone() };
     total.merge(run_generated(&tctx, &crate::engines::tcpeyes::TcpEyesEngine { prop }, "tcp-transport", crate::engines::tcpeyes::strategy, ctx.cases(48, 1_500), 12));
